@@ -10,7 +10,8 @@ mod = types.ModuleType("check")
 mod.__file__ = os.path.join(VERIF, "bin", "check")
 exec(compile(src.replace('if __name__ == "__main__":', 'if False:'), mod.__file__, "exec"), mod.__dict__)
 bad = 0
-for prop, cfg in sorted(mod.PROPS.items()):
+import props as _p
+for prop, cfg in sorted((k, v) for k, v in mod.PROPS.items() if k in _p.REGISTERED):
     cfg = dict(cfg)
     bdir = os.path.join(VERIF, "build", prop)
     os.makedirs(bdir, exist_ok=True)
